@@ -99,6 +99,26 @@ def attach(ctx, origin="insitu"):
 
     contracts.attach(simple, "reverse_complement", post=revcomp_is_iupac_involution, label="C14.reverse_complement")
 
+    # mechanism named in the property's anchors: "minus-strand baits reverse the fused overlap result"
+    from tola.assembly.overlap_result import OverlapResult
+
+    def rows_before(self):
+        return [dump_row(r) for r in self.rows]
+
+    def only_minus_strand_baits_reverse(self, result, OLD):
+        ctx.count(f"{origin}:to_scaffold-calls:bait-strand={self.bait.strand}")
+        got = [dump_row(r) for r in result.rows]
+        want = plain_reverse(OLD.rows) if self.bait.strand == -1 else OLD.rows
+        if got != want:
+            ctx.violation(
+                f"to_scaffold-orientation-for-bait-strand-{self.bait.strand}",
+                f"bait {self.bait}: rows {OLD.rows[:6]} became {got[:6]}",
+                {"kind": "scaffold", "rows": OLD.rows},
+            )
+        return True
+
+    contracts.attach(OverlapResult, "to_scaffold", post=only_minus_strand_baits_reverse, snapshots=[(rows_before, "rows")], label="C14.to_scaffold")
+
 
 def run_table(shard, ctx):
     from tola.fasta.simple import IUPAC_COMPLEMENT, FastaSeq, reverse_complement
@@ -198,7 +218,7 @@ def run_stream(shard, ctx):
 def run_insitu(shard, ctx):
     from vf import workloads
 
-    workloads.run_remap_batch(shard, ctx, kinds=("pv",), opts={"strands": [1, -1]})
+    workloads.run_remap_batch(shard, ctx, kinds=("pv", "hostile"), opts={"strands": [1, -1]})
 
 
 def run(shard, ctx):
@@ -238,6 +258,8 @@ def gates(c, tier):
         "streamlaw:with-unknown-strand": 200,
         "direct:reverse-calls": 2000,
         "insitu:reverse-calls": 200,
+        "insitu:to_scaffold-calls:bait-strand=0": 20,
+        "insitu:to_scaffold-calls:bait-strand=-1": 200,
         "direct:revcomp-calls": 3000,
     }
     return [f"{k}>={v} (got {c.get(k, 0)})" for k, v in need.items() if c.get(k, 0) < v]
